@@ -16,7 +16,7 @@ import histgen, C06
 
 PID = "C19"
 MODULE = "Check.C19"
-CLASS_BITS = {16: "K_invalid_hides_imports", 32: "K_order"}
+CLASS_BITS = {16: "K_invalid_hides_imports"}
 VALID_CODES = ["undeclared-fixture", "scope-mismatch", "circular-dependency"]
 CODE_POOL = VALID_CODES + ["bogus", "Undeclared-Fixture", "", "scope_mismatch", "circular-dependency "]
 GLOB_POOL = ["build/**", "**/sub/*", "tests/test_*.py", "*.py", "[", "a[", "**/x", "***", "a/**b", "pkg/[a-", "{a,b}", "ok/?.py", "[!a]x"]
@@ -156,16 +156,23 @@ def explore_server(r, h1, rnd, n, stdlib):
     terms, metas, bad = [], [], []
     base = tempfile.mkdtemp(prefix="verif_c19_")
     try:
-        for i in range(n):
+        import glob as _glob
+        corpus = [json.load(open(q)) for q in sorted(_glob.glob(os.path.join(core.VERIF, "gen", "corpus", PID, "*.json")))]
+        for i in range(len(corpus) + n):
             root = os.path.join(base, "w%d" % i)
             os.makedirs(root)
-            text, ex, dis, ok = gen_pyproject(rnd)
+            if i < len(corpus):
+                c = corpus[i]
+                text, ex, dis, ok = c["pyproject"], [], [], True
+                h = {"versions": [(os.path.join(root, q), t) for q, t in c["versions"]], "tags": c["tags"]}
+            else:
+                text, ex, dis, ok = gen_pyproject(rnd)
+                h = histgen.gen_history(rnd, root=root)
+                extra = diag_versions(rnd, root)
+                cut = rnd.randint(5, len(h["versions"]))
+                h["versions"] = h["versions"][:cut] + extra + h["versions"][cut:]
             open(os.path.join(root, "pyproject.toml"), "w").write(text)
             raw = dis if ok else []
-            h = histgen.gen_history(rnd, root=root)
-            extra = diag_versions(rnd, root)
-            cut = rnd.randint(5, len(h["versions"]))
-            h["versions"] = h["versions"][:cut] + extra + h["versions"][cut:]
             srv = lsp.Server(binp, root=root, timeout=30)
             steps, h1_ops = [], []
             try:
